@@ -14,11 +14,12 @@ speaks about *positions* in the original `choices` array.
 
 * `argmax` is `np.argmax`: first position of the maximum; `none` for an empty list (numpy raises
   `ValueError: attempt to get an argmax of an empty sequence`).
-* `pickLoop` is the `while chosen < q` loop: arg-max of the remaining rows, record the row and
-  `acq_values[best_idx]`, delete the row from `choices`.
-* `optimizeDiscrete vals q` is what the code does — `none` is the crash for `q > len(choices)`;
-  `optimizeDiscreteTotal` is what property C07 demands (every batch size works: a batch larger than
-  the choice list selects every choice).
+* `pickLoop` is the `while chosen < q and len(choices) > 0` loop: arg-max of the remaining rows,
+  record the row and `acq_values[best_idx]`, delete the row from `choices`.
+* `optimizeDiscrete vals q` is what the code does since fix commit 00d0f01: a batch larger than the
+  choice list selects every choice, which is what property C07 demands (every batch size ≥ 1
+  works).  `optimizeDiscretePreFix` is the code before the fix (defect D7: `none` = the
+  `ValueError` of `np.argmax` on an empty array as soon as `q > len(choices)`).
 * `optimizeDecoupled table q` (`table[j][i]` = value of row `i` for objective `j`): per-objective
   `optimizeDiscrete`, concatenation in objective order, then the `q` largest of the concatenation
   in non-increasing order.  `np.argpartition(v, -q)[-q:]` followed by the descending `argsort`
@@ -39,9 +40,31 @@ def argmax : List Rat → Option (Nat × Rat)
 /-- `[(0, v₀), (1, v₁), …]`: every row of `choices` tagged with its original position -/
 def indexed (vals : List Rat) : List (Nat × Rat) := vals.zipIdx.map fun (v, i) => (i, v)
 
-/-- The `while chosen < q` loop of `optimize_acqf_discrete` on the remaining (original position,
-value) rows.  `none` = the `ValueError` of `np.argmax` on an empty array. -/
-def pickLoop : Nat → List (Nat × Rat) → Option (List (Nat × Rat))
+/-- The `while chosen < q and len(choices) > 0` loop of `optimize_acqf_discrete` on the remaining
+(original position, value) rows: arg-max of the remaining values, record the row and
+`acq_values[best_idx]`, delete the row.  The loop stops when `q` rows were chosen or no row is
+left (fix commit 00d0f01; before it the loop condition was `chosen < q` alone, see
+`pickLoopPreFix`). -/
+def pickLoop : Nat → List (Nat × Rat) → List (Nat × Rat)
+  | 0, _ => []
+  | q + 1, rem =>
+    match argmax (rem.map (·.2)) with
+    | none => []
+    | some (j, v) =>
+      match rem[j]? with
+      | none => []
+      | some e => (e.1, v) :: pickLoop q (rem.eraseIdx j)
+
+/-- `optimize_acqf_discrete(acq, q, choices)`: the picked original positions with their values, in
+pick order.  (For an empty `choices` array the real function then fails in `np.stack([])`; no
+algorithm calls it with an empty active set, and the driver refuses that input.) -/
+def optimizeDiscrete (vals : List Rat) (q : Nat) : List (Nat × Rat) :=
+  pickLoop q (indexed vals)
+
+/-- The loop as it was before fix commit 00d0f01 (defect D7): `while chosen < q` with no guard, so
+`np.argmax` of an empty array raises `ValueError` (`none`) as soon as `q` exceeds the number of
+choices.  Kept as the regression reference: `optimizeDiscrete` agrees with it wherever it returns. -/
+def pickLoopPreFix : Nat → List (Nat × Rat) → Option (List (Nat × Rat))
   | 0, _ => some []
   | q + 1, rem =>
     match argmax (rem.map (·.2)) with
@@ -49,17 +72,10 @@ def pickLoop : Nat → List (Nat × Rat) → Option (List (Nat × Rat))
     | some (j, v) =>
       match rem[j]? with
       | none => none
-      | some e => (pickLoop q (rem.eraseIdx j)).map ((e.1, v) :: ·)
+      | some e => (pickLoopPreFix q (rem.eraseIdx j)).map ((e.1, v) :: ·)
 
-/-- `optimize_acqf_discrete(acq, q, choices)`: the picked original positions with their values, in
-pick order; `none` when the code raises (`q > len(choices)`). -/
-def optimizeDiscrete (vals : List Rat) (q : Nat) : Option (List (Nat × Rat)) :=
-  pickLoop q (indexed vals)
-
-/-- What the property demands for every batch size: a batch larger than the number of choices picks
-all of them. -/
-def optimizeDiscreteTotal (vals : List Rat) (q : Nat) : List (Nat × Rat) :=
-  (optimizeDiscrete vals (min q vals.length)).getD []
+def optimizeDiscretePreFix (vals : List Rat) (q : Nat) : Option (List (Nat × Rat)) :=
+  pickLoopPreFix q (indexed vals)
 
 /-- A (row position, objective, value) entry of the decoupled optimiser. -/
 structure Entry where
@@ -68,25 +84,18 @@ structure Entry where
   val : Rat
 deriving DecidableEq, Repr
 
-/-- the `for eval_i in range(out_dim)` loop: per-objective batches, concatenated -/
-def decoupledCandidates : Nat → List (List Rat) → Nat → Option (List Entry)
-  | _, [], _ => some []
+/-- the `for eval_i in range(out_dim)` loop: per-objective batches, concatenated in objective
+order (`j` = index of the first row of `rows` in the whole table) -/
+def decoupledCandidates : Nat → List (List Rat) → Nat → List Entry
+  | _, [], _ => []
   | j, row :: rows, q =>
-    match optimizeDiscrete row q with
-    | none => none
-    | some picks =>
-      (decoupledCandidates (j + 1) rows q).map
-        (fun rest => picks.map (fun p => ⟨p.1, j, p.2⟩) ++ rest)
+    (optimizeDiscrete row q).map (fun p => ⟨p.1, j, p.2⟩) ++ decoupledCandidates (j + 1) rows q
 
-/-- `optimize_decoupled_acqf_discrete(acq, q, choices)`: `q` (position, objective, value) triples,
-values non-increasing. -/
-def optimizeDecoupled (table : List (List Rat)) (q : Nat) : Option (List Entry) :=
-  match decoupledCandidates 0 table q with
-  | none => none
-  | some cands =>
-    match optimizeDiscrete (cands.map (·.val)) q with
-    | none => none
-    | some sel => sel.mapM (fun p => cands[p.1]?)
+/-- `optimize_decoupled_acqf_discrete(acq, q, choices)`: the `min q (number of candidates)` largest
+candidates as (position, objective, value) triples, values non-increasing. -/
+def optimizeDecoupled (table : List (List Rat)) (q : Nat) : List Entry :=
+  let cands := decoupledCandidates 0 table q
+  (optimizeDiscrete (cands.map (·.val)) q).filterMap (fun p => cands[p.1]?)
 
 /-! ## Acquisition values -/
 
@@ -170,15 +179,9 @@ def empAddSample (samples : List (List Vec)) (indices : List Nat) (Y : List Vec)
 `designs` are the active rows in the order the optimiser sees them (`points[list(W)]`), `vals` their
 acquisition values, `observe` the problem's answer for a design row. -/
 def evaluatingStep (inputDim : Nat) (designs : List Vec) (vals : List Rat) (q : Nat)
-    (observe : Vec → Vec) (data : List Obs) : Option (List Vec × List Obs) :=
-  match optimizeDiscrete vals q with
-  | none => none
-  | some picks =>
-    match picks.mapM (fun p => designs[p.1]?) with
-    | none => none
-    | some cand =>
-      let obs := cand.map observe
-      some (cand, gpAddSample inputDim data cand obs)
+    (observe : Vec → Vec) (data : List Obs) : List Vec × List Obs :=
+  let cand := (optimizeDiscrete vals q).filterMap (fun p => designs[p.1]?)
+  (cand, gpAddSample inputDim data cand (cand.map observe))
 
 /-! ## Decidable specification relations checked on the implementation's output -/
 
